@@ -14,17 +14,10 @@ CVC5 = "/usr/bin/cvc5"
 Z3 = "z3-new"          # CLI of the z3-solver wheel (same 5.1.0 as the python API that builds the queries)
 
 
-def _z3_worker(job):
-    """One query in its own z3 process: the soft time-out (-t) is not honoured inside some quantifier
-    instantiation loops, so the process is killed at the hard limit; a killed query is `unknown`."""
-    key, smt2, timeout_ms = job
-    t0 = time.time()
-    with tempfile.NamedTemporaryFile("w", suffix=".smt2", delete=False) as fh:
-        fh.write(smt2)
-        path = fh.name
+def _z3_once(path, timeout_ms, opts):
     secs = max(1, (timeout_ms + 999) // 1000)
     try:
-        p = subprocess.run([Z3, "-smt2", f"-t:{timeout_ms}", f"-T:{secs + 1}", path],
+        p = subprocess.run([Z3, "-smt2", f"-t:{timeout_ms}", f"-T:{secs + 1}"] + opts + [path],
                            capture_output=True, text=True, timeout=secs + 4)
         lines = (p.stdout or "").strip().splitlines()
         res = lines[0].strip() if lines else "unknown"
@@ -36,20 +29,42 @@ def _z3_worker(job):
                 res, extra = "error", ((p.stdout or "") + (p.stderr or ""))[:500]
         elif res == "unknown":
             extra = "unknown"
-        elif res == "sat":
-            # counter-model for the replay file
-            with open(path, "a") as fh:
-                fh.write("\n(get-model)\n")
-            try:
-                p2 = subprocess.run([Z3, "-smt2", f"-t:{timeout_ms}", f"-T:{secs + 1}", path],
-                                    capture_output=True, text=True, timeout=secs + 4)
-                extra = (p2.stdout or "")[:4000]
-            except Exception:
-                extra = "<model unavailable>"
     except subprocess.TimeoutExpired:
         res, extra = "unknown", "hard timeout (process killed)"
     except Exception as e:  # z3 internal error is not a verdict
         res, extra = "error", repr(e)
+    return res, extra
+
+
+def _z3_worker(job):
+    """One query, each attempt in its own z3 process (the soft time-out is not honoured inside some quantifier
+    instantiation loops, so the process is killed at the hard limit; a killed query is `unknown`).
+    Quantifier instantiation is sensitive to the random seed (the same query: time-out with one seed, 0.3 s with
+    another), so a small fixed portfolio is tried: default seed briefly, then two other seeds with half the budget each.
+    Only a definite answer ends the portfolio."""
+    key, smt2, timeout_ms = job
+    t0 = time.time()
+    with tempfile.NamedTemporaryFile("w", suffix=".smt2", delete=False) as fh:
+        fh.write(smt2)
+        path = fh.name
+    res, extra = "unknown", ""
+    try:
+        portfolio = [([], min(timeout_ms, 3000))]
+        if timeout_ms > 3000:
+            portfolio += [(["smt.random_seed=3"], timeout_ms // 2), (["smt.random_seed=11"], timeout_ms // 2)]
+        for opts, tmo in portfolio:
+            res, extra = _z3_once(path, tmo, opts)
+            if res in ("sat", "unsat"):
+                break
+        if res == "sat":
+            # counter-model for the replay file
+            with open(path, "a") as fh:
+                fh.write("\n(get-model)\n")
+            try:
+                p2 = subprocess.run([Z3, "-smt2", "-T:20"] + opts + [path], capture_output=True, text=True, timeout=25)
+                extra = (p2.stdout or "")[:4000]
+            except Exception:
+                extra = "<model unavailable>"
     finally:
         os.unlink(path)
     return key, res, round(time.time() - t0, 3), extra
@@ -97,7 +112,7 @@ def discharge(obligations, timeout_ms=20000, jobs=None, use_cvc5=True, cvc5_all=
     return discharge_texts([uniq[k] for k in order], timeout_ms, jobs, use_cvc5, cvc5_all)
 
 
-def discharge_texts(items, timeout_ms=20000, jobs=None, use_cvc5=True, cvc5_all=False):
+def discharge_texts(items, timeout_ms=20000, jobs=None, use_cvc5=True, cvc5_all=False, brief=()):
     """items: dicts with oid, kind, lineno, hash, smt2, note."""
     jobs = jobs or min(16, os.cpu_count() or 4)
     uniq, order = {}, []
@@ -107,8 +122,10 @@ def discharge_texts(items, timeout_ms=20000, jobs=None, use_cvc5=True, cvc5_all=
             uniq[key] = it
             order.append(key)
 
+    brief = set(brief)       # obligations listed as open findings: expected not to discharge, do not spend the budget on them
+
     def tmo(k):
-        return 2000 if uniq[k]["kind"] == "vacuity" else timeout_ms
+        return 2000 if (uniq[k]["kind"] == "vacuity" or uniq[k]["oid"] in brief) else timeout_ms
     work = [(k, uniq[k]["smt2"], tmo(k)) for k in order]
     results = {}
     if work:
@@ -117,24 +134,12 @@ def discharge_texts(items, timeout_ms=20000, jobs=None, use_cvc5=True, cvc5_all=
                 results[key] = dict(z3=res, z3_s=secs, z3_extra=extra)
     if use_cvc5:
         again = [(k, uniq[k]["smt2"], timeout_ms) for k in order
-                 if uniq[k]["kind"] != "vacuity" and (cvc5_all or results[k]["z3"] in ("unknown", "error"))]
+                 if uniq[k]["kind"] != "vacuity" and uniq[k]["oid"] not in brief
+                 and (cvc5_all or results[k]["z3"] in ("unknown", "error"))]
         if again:
             with mp.get_context("fork").Pool(min(jobs, len(again))) as pool:
                 for key, res, secs, extra in pool.imap_unordered(_cvc5_worker, again):
                     results[key].update(cvc5=res, cvc5_s=secs, cvc5_extra=extra)
-    # a query that neither solver decided gets one more z3 run with a fresh random seed and three times the budget,
-    # a few at a time: a time-out on a busy machine must not look like a failed proof
-    retry = [k for k in order if uniq[k]["kind"] != "vacuity" and results[k]["z3"] in ("unknown", "error")
-             and results[k].get("cvc5") not in ("unsat", "sat")]
-    if retry and len(retry) <= 24:
-        work2 = [(k, "(set-option :smt.random_seed 7)\n" + uniq[k]["smt2"], 3 * timeout_ms) for k in retry]
-        with mp.get_context("fork").Pool(min(4, len(work2))) as pool:
-            for key, res, secs, extra in pool.imap_unordered(_z3_worker, work2):
-                results[key]["z3_retry"] = res
-                results[key]["z3_s"] = round(results[key]["z3_s"] + secs, 3)
-                if res in ("unsat", "sat"):
-                    results[key]["z3"] = res
-                    results[key]["z3_extra"] = extra
     out = []
     for k in order:
         d = dict(uniq[k])
